@@ -119,7 +119,7 @@ func purePredicate(fn *ssa.Function) bool {
 				if bi, ok := x.Call.Value.(*ssa.Builtin); ok && (bi.Name() == "len" || bi.Name() == "cap") {
 					continue
 				}
-				if q := calleeQualified(&x.Call); q == "math.IsNaN" || q == "math.IsInf" {
+				if q := calleeQualified(&x.Call); q == "math.IsNaN" || q == "math.IsInf" || q == "math.Abs" || q == "math.Trunc" {
 					continue
 				}
 				return false
